@@ -208,13 +208,19 @@ def modeSize (c : BCConfig) (I : ℕ) : ℕ := (stiffRange c I).2 - (stiffRange 
 def modeRhs (A : Assembled K) (c : BCConfig) (I : ℕ) (rhoCoeffs : ℕ → K) : ℕ → K :=
   fun a => ((List.range c.nb).map (fun j => sliceRows A.mass (startRange c) ((stiffRange c I).1 + a) j * rhoCoeffs j)).sum
 
-/-- `rhoVec[j]` of `_solveModeFunc` (:441-446): quadrature over *all* cells of `B_j · r · rho(r)` -/
-def rhoVec (Q : Quad K) (P : ℕ → ℕ → ℕ → K) (rhoAt : ℕ → ℕ → K) (j : ℕ) : K :=
+/-- `rhoVec[j]` of `_solveModeFunc` (:441-446) **as repaired** (see notes/patch_C14_funcrhs_rhofactor.diff):
+    quadrature over *all* cells of `E · B_j · r · rho(r)`, so that both entry points solve `… = E rho` -/
+def rhoVec (Q : Quad K) (co : Coefs K) (P : ℕ → ℕ → ℕ → K) (rhoAt : ℕ → ℕ → K) (j : ℕ) : K :=
+  quadSum Q (0, Q.ncells) (fun c q => P j c q * Q.x c q * rhoAt c q * co.E c q)
+
+/-- `rhoVec[j]` as the unrepaired code computes it: `rhoFactor` is ignored for function right-hand sides
+    (kept under a separate name for the negative witness and for classifying the known finding) -/
+def rhoVecNoE (Q : Quad K) (P : ℕ → ℕ → ℕ → K) (rhoAt : ℕ → ℕ → K) (j : ℕ) : K :=
   quadSum Q (0, Q.ncells) (fun c q => P j c q * Q.x c q * rhoAt c q)
 
 /-- `rhoVec[self._coeff_range[I]]` -/
-def modeRhsFunc (Q : Quad K) (P : ℕ → ℕ → ℕ → K) (rhoAt : ℕ → ℕ → K) (c : BCConfig) (I : ℕ) : ℕ → K :=
-  fun a => rhoVec Q P rhoAt ((coeffRange c I).1 + a)
+def modeRhsFunc (vec : ℕ → K) (c : BCConfig) (I : ℕ) : ℕ → K :=
+  fun a => vec ((coeffRange c I).1 + a)
 
 /-- `(A x)_a` for an `n × n` system -/
 def matVec (n : ℕ) (A : ℕ → ℕ → K) (x : ℕ → K) (a : ℕ) : K :=
